@@ -354,12 +354,20 @@ class SerialMpWriter(MpWriter):
         self.tasks = [SegmentWriter(ix, _lk=False, **self.subargs)
                       for _ in xrange(self.procs)]
         self.pointer = 0
+        self._grouping = 0
         self._added_sub = False
 
     def add_document(self, **fields):
         self.tasks[self.pointer].add_document(**fields)
-        self.pointer = (self.pointer + 1) % len(self.tasks)
+        # The documents of a group stay in the same sub-writer
+        if not self._grouping:
+            self.pointer = (self.pointer + 1) % len(self.tasks)
         self._added_sub = True
+
+    def end_group(self):
+        MpWriter.end_group(self)
+        if not self._grouping:
+            self.pointer = (self.pointer + 1) % len(self.tasks)
 
     def _commit(self, mergetype, optimize, merge):
         # Pull a (run_file_name, segment) tuple off the result queue for each
